@@ -1,36 +1,36 @@
 import json, os, shutil, glob
-W='n'
+W='o'
 rows = {
- 'C01': ("Bitmap.BitCount counts the set padding bits of the last byte (same line as C15-k, judged on values)",
-         "a partial row image whose columns-present bitmap has its unused bits set to 1",
-         "C01: value:*, row-count, count, panic (caught through the padding-bit generator added in wave k)"),
- 'C02': ("an XID whose xid equals the last accepted XID-closed transaction's is treated as a replay: pending changes dropped",
-         "two XID-closed transactions in one attempt with the same non-zero xid (a master restarted between them)",
-         "C02: grouping - **missed at first** (xids were random 64-bit values; they now repeat, count up or are 0)"),
- 'C03': ("the parser's running position read back from the Transaction it handed to the handler",
-         "a handler that writes the label fields of the delivered Transaction before returning",
-         "C03: chain, resume-suffix, crash-restart-exactly-once - **missed at first** (the overwriting consumer, which also rewrites file names and offsets of both labels, now runs in a sixth of the C03 cases too)"),
- 'C04': ("events whose header server_id equals the replica's own id skipped",
-         "a committed transaction stamped with the replica's own server id",
-         "C04: lost, reordered, resume-coordinate"),
- 'C05': ("deferred cleanup replaced by an explicit stop() on ordinary return paths plus a recover() that turns a callback panic into a returned error",
-         "a handler or table mapper that panics",
-         "C05: error-blocks, goroutine-leak:*, socket-not-closed - **missed at first** (a fifth of the failing handlers / mappers of C05 now panic; the simulated application recovers around its Stream call, and the usual clean-up clauses are judged)"),
- 'C06': ("dump packets whose first byte is neither 0x00 nor 0xff treated as the master's EOF",
-         "a packet that starts with a byte other than 0x00 / 0xfe / 0xff",
-         "C06: stream-nil-on-failure - **missed at first** (a sixth of the malformed packets now start with a random status byte 0x01..0xfd instead of 0x00)"),
- 'C07': ("re-dial after a failed COM_BINLOG_DUMP write without repeating the per-session checksum SET",
-         "connection dies between the master's OK for the SET and the dump command; the re-dial succeeds",
-         "C07: no-checksum-set"),
- 'C08': ("rows-event buffers of >= 1 KiB recycled unless the table has string/blob/geometry columns (BIT forgotten)",
-         "a table whose only by-reference column type is BIT, a rows event of 1 KiB or more, a retained BIT value",
-         "C08: later-delivery-corrupted, mutated-after-delivery, scribble-propagated - **missed at first** (half of the many-rows histories now use numeric + BIT tables)"),
- 'C15': ("table-map cache keyed by (header server_id, table id)",
-         "events of one table id carrying different server ids",
-         "C15: mapper-call"),
- 'C17': ("progress log line on every 10000th packet reads header fields before the validity gate",
-         "a malformed packet shorter than 17 bytes that is exactly the 10000th packet of a dump",
-         "C17: panic - **missed at first** (one C17 history in 200 now starts with 1000..10000 tiny ignorable events and the malformed packet is placed on the round ordinal)"),
+ 'C01': ("transactions without buffered changes that end in a COMMIT / ROLLBACK query dropped (position advanced, handler not called)",
+         "BEGIN directly followed by COMMIT, or a rolled-back transaction",
+         "C01: count, order (through the rolled-back units added to every family in wave j)"),
+ 'C02': ("Q_FLAGS2 decoded; a DDL / statement DML with OPTION_NOT_AUTOCOMMIT set does not commit by itself",
+         "an autocommitted statement whose status variables carry flags2 with bit 0x80000",
+         "C02: grouping"),
+ 'C03': ("query events whose default database is a server schema skipped, BEGIN/COMMIT included (same filter as C02-m, judged on labels)",
+         "a transaction logged by a session with default database mysql/sys/...",
+         "C03: content:count, end-label, resume-suffix, crash-restart-exactly-once"),
+ 'C04': ("resume position read back from the Transaction handed to the handler (same as C03-n, judged on retries)",
+         "a consumer that rewrites the delivered Transaction, an accepted transaction, then a retry",
+         "C04: reordered, resume-coordinate"),
+ 'C05': ("table lookup retried in a loop that ignores the context while the mapper's error is a timeout-like net.Error (context.DeadlineExceeded qualifies)",
+         "a mapper that fails with context.DeadlineExceeded / a net timeout, then cancellation",
+         "C05: stream-hang"),
+ 'C06': ("failed lookup for a table name that was resolved earlier in the attempt only logged, earlier definition reused",
+         "one table announced under two table ids; the mapper succeeds on the first lookup and fails on the second",
+         "C06: stream-nil-on-failure - **missed at first** (the same table under a second table id is now generated in the C06 family too)"),
+ 'C07': ("ROTATE decoded straight into the running position (same line as C04-j), judged on the next dump request",
+         "an undecodable ROTATE, then another attempt",
+         "C07: offset (through the undecodable-event variants added in wave j)"),
+ 'C08': ("buffers of a rolled-back transaction's rows events handed back to the reader; the list is not cleared at commit",
+         "a delivered transaction, then a ROLLBACK query that no BEGIN precedes, then a later packet",
+         "C08: mutated-after-delivery - **missed at first** (a fifth of the rolled-back units are now a bare ROLLBACK without BEGIN)"),
+ 'C15': ("schema and table name lengths of a table map read as length-encoded integers",
+         "a schema or table name of exactly 252, 253 or 254 bytes",
+         "C15: attribution - **missed at first** (names of 1, 250..255 bytes are now generated; the property quantifies over 1..255)"),
+ 'C17': ("reader drops 'artificial filler' packets (flag 0x20, next_position 0, not ROTATE/FDE) before the validity gate",
+         "a malformed packet of 19 bytes or more whose header says next_position 0 and carries the artificial flag",
+         "C17: accepted-malformed - **missed at first** (a sixth of the malformed packets now get next_position 0 and the artificial / ignorable / in-use flag bits, some also timestamp 0)"),
 }
 for p,(chg,needs,caught) in rows.items():
     src=f'/tmp/wt-{p}-{W}/_seeded'
